@@ -48,7 +48,7 @@ pub fn vx_position_u32(v: &Vec<u32>, x: u32) -> (r: Option<usize>)
         !v@.contains(x) ==> r.is_none(),
 { v.iter().position(|&y| y == x) }
 #[verifier::external_body]
-pub fn vx_vec_repeat_bool(b: bool, n: usize) -> (r: Vec<bool>) ensures r@.len() == n, forall|i: int| 0 <= i < n ==> r@[i] == b { vec![b; n] }
+pub fn vx_vec_repeat_bool(b: bool, n: usize) -> (r: Vec<bool>) ensures r@ == Seq::new(n as nat, |i: int| b) { vec![b; n] }
 
 impl ClosingOutpoints {
 
@@ -56,7 +56,7 @@ impl ClosingOutpoints {
     ensures co_abs(r) == co_new(txid, our_output_index, htlc_output_indexes@),
 //@sub /vec!\[false; htlc_output_indexes\.len\(\)\]/ => vx_vec_repeat_bool(false, htlc_output_indexes.len())
 //@proof before /^\s*ClosingOutpoints \{/
-        proof { assert(v@ =~= falses(htlc_output_indexes@.len())); assert(second_abs(Seq::<SecondLevelHTLCOutput>::empty()) =~= Seq::empty()); }
+        proof { assert(second_abs(Seq::<SecondLevelHTLCOutput>::empty()) =~= Seq::empty()); }
 //@end
 
 //@fn vls-core/src/monitor.rs :: impl ClosingOutpoints :: set_our_output_spent props=C14 noabort
